@@ -137,6 +137,12 @@ class RecDom(RecorderDomain):
         if node.kind == 'stmt' and isinstance(node.ast, ast.Assign) and node.frame.func is r.force and \
                 any(_self_attr(t) == r.force_flag for t in node.ast.targets):
             state = state.with_extra(force_requested=True)
+        if node.kind == 'enter' and node.info['callee'].func is r.discard:
+            ac = state.env.get(('F', 'self', r.active))
+            if ac is not None and self.is_none(ac, state) is not True:
+                state = state.with_extra(discard_requested=True)
+        if node.kind == 'enter' and node.info['callee'].func is r.force and not node.info.get('reentry'):
+            state = state.with_extra(internal_force=True)
         if node.kind == 'enter' and node.info['callee'].func in (r.sampler, r.start):
             self.at_enters.append((node, state))
         if node.kind == 'leave' and node.info.get('mode') == 'value' and node.info['callee'].func is self.roles.reader:
